@@ -9,6 +9,7 @@ import asyncio
 import itertools
 
 from . import kernel as kmod
+from . import sim
 
 
 class _Selector:
@@ -48,6 +49,8 @@ class SimEventLoop(asyncio.BaseEventLoop):
         self._clock_resolution = 1e-9
         self._names = itertools.count(1)
         self.set_task_factory(self._factory)
+        # run_in_executor(None, ...) must not reach a real thread pool: the default executor is simulated too
+        self._default_executor = sim.SimThreadPool(4)
 
     def _factory(self, loop, coro, context=None):
         # deterministic task names (the default global Task-<n> counter is process history dependent)
